@@ -17,7 +17,7 @@ TRUSTED = ["Coq 8.16.1 kernel + vm_compute", "hand-written model coq/Model/Ls.v,
            "scipy.linalg.lstsq is specified (returns a solution of the normal equations), not verified; numpy QR/SVD in the search oracles",
            "Python harness"]
 UNPROVED = ["full column rank of the data matrix of p distinct exponentials (Vandermonde): hypothesis of the uniqueness/exact-recovery clauses; recovery of the frequencies checked by search",
-            "arcovar_marple / modcovar_marple equal the least-squares solution and e/(N-p), e/(2(N-p)): TEST only (search, tolerance 1e-11*cond^2)",
+            "arcovar_marple / modcovar_marple equal the least-squares solution and e/(N-p), e/(2(N-p)): TEST only — their executable model (Model/CovarMarple.v, tied to the code by correspondence) is compared with the exact LS model at zero tolerance on every generated case, and the implementation is compared in the search (tolerance 1e-11*cond^2)",
             "completeness of the executable solver ls_solve (returns Some for non-singular normal equations): correspondence only"]
 ASSUMPTIONS = ["exact arithmetic", "N - p >= p and full column rank where uniqueness / exact recovery is claimed",
                "lstsq returns a solution of the normal equations (always true of a least-squares solver, also when rank-deficient)"]
@@ -25,7 +25,7 @@ RULE = ("exact in Coq: real/complex low-bit dyadic data (noise, 4th-root-of-unit
         "orders 1..4, cond(Xc)^2 <= 1e6; search: N=6..128, orders 1..min(N/2,20), noise / tones in noise / noiseless exponentials / "
         "integers, amplitudes 1e-5..1e7; non-trivial = order >= 2")
 
-PRE = """Require Import Spectrum.Theory.Ops Spectrum.Theory.Vec Spectrum.Model.Corr Spectrum.Model.Ls Spectrum.Instances.QcC.
+PRE = """Require Import Spectrum.Theory.Ops Spectrum.Theory.Vec Spectrum.Model.Corr Spectrum.Model.Ls Spectrum.Model.CovarMarple Spectrum.Instances.QcC.
 From Coq Require Import QArith Qcanon.
 Local Open Scope Z_scope.
 Definition tol4 : QcC := (Q2Qc (1 # 10000), Q2Qc 0).
@@ -41,6 +41,36 @@ Definition pmodcovar_case tol s x (p : nat) raised ia ie := res_close tol s (@pm
 Definition mat_eq (A B : list (list QcC)) : bool :=
   Nat.eqb (length A) (length B) && forallb (fun pr => qcc_close_list 0%Qc (fst pr) (snd pr)) (combine A B).
 Definition corrmtx_case x (m : nat) meth C := mat_eq (@corrmtx _ qcc_ops x m meth) C.
+(* ---- Marple's fast recursions: model vs implementation (tolerance) ---- *)
+Definition ediv (e : QcC) (n : nat) : QcC := @div _ qcc_ops e (@ofnat _ qcc_ops n).
+Definition marple_cov_case tol s x (p : nat) iaf ipf iab ipb : bool :=
+  match @arcovar_marple _ qcc_ops x p with
+  | Some (af, pf, ab, pb) => qcc_close_rel tol (dy 1 0) af iaf && qcc_close_rel tol (dy 1 0) ab iab
+                             && qcc_close_rel tol s [pf] [ipf] && qcc_close_rel tol s [pb] [ipb]
+  | None => false
+  end.
+Definition marple_mod_case tol s x (p : nat) (raised : bool) ia ip : bool :=
+  match @modcovar_marple _ qcc_ops x p with
+  | Some (a, pv) => negb raised && qcc_close_rel tol (dy 1 0) a ia && qcc_close_rel tol s [pv] [ip]
+  | None => raised
+  end.
+(* ---- TEST (not a theorem): in exact arithmetic the fast recursions return the least-squares solution and the
+   per-sample minimum; for arcovar_marple also the backward predictor = LS on the row-reversed matrix ---- *)
+Definition marple_cov_exact x (p : nat) : bool :=
+  match @arcovar _ qcc_ops tol4 x p,
+        @ar_ls _ qcc_ops (@ls_solve _ qcc_ops) tol4 (map (@rev QcC) (@corrmtx _ qcc_ops x p MCovariance)) p,
+        @arcovar_marple _ qcc_ops x p with
+  | Some (a, e), Some (b, eb), Some (af, pf, ab, pb) =>
+      qcc_close_list 0%Qc (firstn p af) a && qcc_close 0%Qc pf (ediv e (length x - p))
+      && qcc_close_list 0%Qc (firstn p ab) b && qcc_close 0%Qc pb (ediv eb (length x - p))
+  | _, _, _ => false
+  end.
+Definition marple_mod_exact x (p : nat) : bool :=
+  match @modcovar _ qcc_ops tol4 x p, @modcovar_marple _ qcc_ops x p with
+  | Some (a, e), Some (am, pm) =>
+      qcc_close_list 0%Qc (firstn p am) a && qcc_close 0%Qc pm (ediv e (2 * (length x - p)))
+  | _, _ => false
+  end.
 """
 
 
@@ -272,6 +302,60 @@ def run(ctx):
     for i in ctx.coq_cases('c14_covar', PRE, cases, shard=30,
                            descr='arcovar, modcovar, pcovar.rho/ar, pmodcovar.rho/ar vs Model.Ls at QcC (exact solver, tolerance 1e-9*cond^2)'):
         ctx.corr_disagreement(meta[i]['function'], i, meta[i])
+
+    # Marple's fast recursions: executable model vs implementation, and (TEST) model == exact least squares
+    fcases = []; fmeta = []
+    nf = ctx.q(60, 360)
+    guard = 0
+    while len(fcases) < 2 * nf and guard < 50 * nf:
+        guard += 1
+        cplx = bool(rng.integers(0, 2)); p = int(rng.integers(1, 5)); N = int(rng.integers(max(5, 2 * p + 1), 15))
+        style = str(rng.choice(['noise', 'noise', 'exp+noise', 'scaled']))
+        mod = bool(rng.integers(0, 2))
+        if style == 'exp+noise':
+            x, _z = exact_exp(rng, N, p); x = x + lowbit(rng, N, True, bits=1) / 4.0
+        elif style == 'scaled':
+            x = lowbit(rng, N, cplx, bits=3) * 2.0 ** int(rng.choice([-12, 16, 24]))
+        else:
+            x = lowbit(rng, N, cplx, bits=int(rng.integers(2, 4)))
+        # the recursion passes through every lower order (forward and backward problems): all must be well conditioned
+        kap2 = 0.0
+        for q in range(1, p + 1):
+            for Tq in (datamat(x, q, mod), datamat(x, q, mod)[:, ::-1]):
+                sv = np.linalg.svd(Tq[:, 1:], compute_uv=False)
+                kap2 = max(kap2, np.inf if sv[-1] <= 0 else float((sv[0] / sv[-1]) ** 2))
+        if kap2 > 1e5:
+            ctx.count('regenerated_illconditioned_marple'); continue
+        T = datamat(x, p, mod); s = float(np.vdot(T[:, 0], T[:, 0]).real) / ((2.0 if mod else 1.0) * (N - p))
+        xm = np.asarray(x, dtype=complex)
+        tol = tolq(1e-9 * kap2)
+        with np.errstate(all='ignore'):
+            if mod:
+                raised = False; am = []; pm = 0.0
+                try:
+                    am, pm, _pv = spectrum.modcovar_marple(xm, p)
+                except ValueError:
+                    raised = True
+                if not raised and not (np.all(np.isfinite(am)) and np.isfinite(pm)):
+                    ctx.count('regenerated_degenerate_marple'); continue
+                fcases.append('marple_mod_case %s %s %s %d%%nat %s %s %s' % (tol, tolq(s), czl(x), p, 'true' if raised else 'false', czl(am), cz(pm)))
+                fcases.append('true' if raised else 'marple_mod_exact %s %d%%nat' % (czl(x), p))
+                fname = 'modcovar_marple'
+            else:
+                af, pf, ab, pb, _pv = spectrum.arcovar_marple(xm, p)
+                if not (np.all(np.isfinite(af)) and np.all(np.isfinite(ab)) and np.isfinite(pf) and np.isfinite(pb)):
+                    ctx.count('regenerated_degenerate_marple'); continue
+                raised = False
+                fcases.append('marple_cov_case %s %s %s %d%%nat %s %s %s %s' % (tol, tolq(s), czl(x), p, czl(af), cz(pf), czl(ab), cz(pb)))
+                fcases.append('marple_cov_exact %s %d%%nat' % (czl(x), p))
+                fname = 'arcovar_marple'
+        for kind in ('model-vs-implementation', 'TEST model == exact least squares (coefficients, per-sample minimum)'):
+            fmeta.append({'function': fname, 'what': kind, 'style': style, 'x': vlib.hexv(x), 'order': p, 'impl_raised': raised})
+        ctx.count('corr/%s/%s/%s' % (fname, style, 'raised' if raised else 'returned'))
+        ctx.case((fname, np.asarray(x).tobytes(), p), nontrivial=(p >= 2))
+    for i in ctx.coq_cases('c14_marple', PRE, fcases, shard=30,
+                           descr='arcovar_marple / modcovar_marple vs Model.CovarMarple at QcC (even indices), and TEST: the Marple model equals the exact least-squares model with zero tolerance (odd indices)'):
+        ctx.corr_disagreement('%s [%s]' % (fmeta[i]['function'], fmeta[i]['what']), i, fmeta[i])
 
     mcases = []; mmeta = []
     for _ in range(ctx.q(40, 200)):
